@@ -277,7 +277,9 @@ def e2e_case(draw, tier="quick"):
             break
     return {"table": tbl, "contexts": ctxs, "style": draw(st.sampled_from(["iso", "datetime"])),
             "frontends": draw(st.lists(st.sampled_from(E2E_FRONTENDS), min_size=1, max_size=2, unique=True)),
-            "reverse_contexts": draw(st.booleans())}
+            "reverse_contexts": draw(st.booleans()),
+            # the stream arrays handed to NumpyStream as numpy masked arrays (junk under the masks), or as NaN-marked arrays
+            "inp_masked": draw(st.sampled_from([None, None, 0.0, -999.0]))}
 
 
 def check_e2e(case, rec):
@@ -291,19 +293,24 @@ def check_e2e(case, rec):
     n = tbl["n"]
     ctxs = case["contexts"][::-1] if case.get("reverse_contexts") else case["contexts"]
     # model: per key the scatter of the direct calls
-    exp = {}
-    for c in case["contexts"]:
-        mask = sg.row_mask(tbl, c.get("window"))
-        for sid, entries in c["streams"].items():
-            for mod, test, kw in entries:
-                fl = sg.direct_call(tbl, mask, sid, mod, test, kw)
-                if fl is None:
-                    continue
-                col = exp.setdefault((sid, mod, test), [None] * n)
-                it = iter(fl)
-                for i, m in enumerate(mask):
-                    if m:
-                        col[i] = next(it)
+    def scatter(inp_masked):
+        out = {}
+        for c in case["contexts"]:
+            mask = sg.row_mask(tbl, c.get("window"))
+            for sid, entries in c["streams"].items():
+                for mod, test, kw in entries:
+                    fl = sg.direct_call(tbl, mask, sid, mod, test, kw, inp_masked)
+                    if fl is None:
+                        continue
+                    col = out.setdefault((sid, mod, test), [None] * n)
+                    it = iter(fl)
+                    for i, m in enumerate(mask):
+                        if m:
+                            col[i] = next(it)
+        return out
+    exp_plain = scatter(None)
+    # (the direct calls get the observations in the carrier the stream was given)
+    exp_masked = scatter(case["inp_masked"]) if case.get("inp_masked") is not None else exp_plain
     partial = any(not all(sg.row_mask(tbl, c.get("window"))) for c in case["contexts"])
     rec.note(len(case["contexts"]) >= 2 or "z" not in tbl["axes"] or "lat" not in tbl["axes"],
              [f"contexts={len(case['contexts'])}"] + (["partial_windows"] if partial else []) +
@@ -319,13 +326,15 @@ def check_e2e(case, rec):
     tarr = sg.np_time(tbl["t"]) if tbl["t"] is not None else None
     src = {"tinp": tarr, "zinp": axes.get("z"), "lat": axes.get("lat"), "lon": axes.get("lon")}
     for fe in case["frontends"]:
+        exp = exp_masked if fe == "numpy_dict" else exp_plain
         site = f"collect_results({fe})"
 
         def stream():
             if fe == "pandas":
                 return PandasStream(sg.make_df(tbl))
             if fe == "numpy_dict":
-                return NumpyStream(inp={k: sg.np_col(v) for k, v in tbl["cols"].items()}, time=tarr, **axes)
+                col = (lambda v: sg.np_col_masked(v, case["inp_masked"])) if case.get("inp_masked") is not None else sg.np_col
+                return NumpyStream(inp={k: col(v) for k, v in tbl["cols"].items()}, time=tarr, **axes)
             if fe == "xarray_coord":
                 return XarrayStream(sg.make_xr(tbl, "coord"))
             return NetcdfStream(sg.make_xr(tbl, "coord"))
@@ -365,7 +374,10 @@ def check_e2e(case, rec):
                     rec.fail(site, f"{k}: collected {name} has shape {np.shape(arr)}", axis=name, frontend=fe)
                     break
                 ad, am = np.ma.getdata(arr), np.ma.getmaskarray(arr)
-                bad = [i for i in range(n) if col[i] is not None and (am[i] or not (ad[i] == want[i] or (ad[i] != ad[i] and want[i] != want[i])))]
+                # (a masked collected element is a missing value: right exactly where the source is missing)
+                bad = [i for i in range(n) if col[i] is not None and
+                       ((am[i] and not (name == "data" and want[i] != want[i])) or
+                        (not am[i] and not (ad[i] == want[i] or (ad[i] != ad[i] and want[i] != want[i]))))]
                 if bad:
                     rec.fail(site, f"{k}: collected {name}[{bad[0]}] != source", axis=name, row=bad[0], frontend=fe,
                              expected=str(want[bad[0]]), got=str(ad[bad[0]]))
